@@ -4,6 +4,7 @@ import (
 	"fmt"
 	"go/types"
 	"math/big"
+	"os"
 	"sort"
 	"strings"
 
@@ -19,8 +20,10 @@ type Env struct {
 	old   *State // state at function entry / before the call
 	pkg   *types.Package
 	pkgPath string
+	lookup func(name string) *SV // resolves source-level local variable names (loop invariants)
 	dropQ bool   // hypothesis-position universal quantifiers evaluate to true (their instances are added per obligation)
 	inst  string // when set: hypothesis-position universal quantifiers are instantiated at this term
+	instMap map[string]string // variable name -> term: hypothesis-position quantifiers binding these names are instantiated
 	pol   int // +1: evaluating a proof goal positively, -1: negatively, 0: assumption / unknown
 	what  string
 }
@@ -87,6 +90,11 @@ func (env *Env) eval(e Expr) *SV {
 		if le, ok := env.lets[e.Name]; ok {
 			return env.eval(le)
 		}
+		if env.lookup != nil {
+			if v := env.lookup(e.Name); v != nil {
+				return v
+			}
+		}
 		switch e.Name {
 		case "true":
 			return ghostBool("true")
@@ -99,7 +107,10 @@ func (env *Env) eval(e Expr) *SV {
 			if obj, ok := env.pkg.Scope().Lookup(e.Name).(*types.Var); ok {
 				if sp := vc.eng.pkgs[env.pkg.Path()]; sp != nil {
 					if g, ok := sp.Members[e.Name].(*ssa.Global); ok {
-						_ = obj
+						if obj.Type().String() == "error" {
+							// package-level error values never change: read the entry value
+							return vc.loadPure(vc.entryOr(env.st), vc.globalPtr(g), obj.Type())
+						}
 						return vc.loadPure(env.st, vc.globalPtr(g), obj.Type())
 					}
 				}
@@ -554,6 +565,23 @@ func (env *Env) evalCall(e CallE) *SV {
 	case "Wout":
 		need(2)
 		return ghostBV(8, false, sel2(env.st.H["Wout"], arg(0).term(), env.toBV64(arg(1))))
+	case "Flen", "Fpos":
+		need(1)
+		vc.saneFile(arg(0).term())
+		return ghostBV(64, true, sel(env.st.H[e.Fn], arg(0).term()))
+	case "Fdata":
+		need(2)
+		return ghostBV(8, false, sel2(env.st.H["Fdata"], arg(0).term(), env.toBV64(arg(1))))
+	case "Frow":
+		need(1)
+		return &SV{Sort: sRowBytes, C: []string{sel(env.st.H["Fdata"], arg(0).term())}}
+	case "file":
+		need(1)
+		x := arg(0)
+		if x.T == nil || !isInterface(x.T) {
+			env.fail("file() needs an interface value")
+		}
+		return ghostRef(x.C[1])
 	case "Gh":
 		need(1)
 		return ghostBV(64, true, sel(env.st.H["Gh"], arg(0).term()))
@@ -566,8 +594,13 @@ func (env *Env) evalCall(e CallE) *SV {
 		need(1)
 		x := arg(0)
 		return &SV{Sort: x.sort(), Signed: e.Fn == "s", C: []string{x.term()}}
-	case "all", "any":
+	case "all", "any", "all32", "any32":
 		need(4)
+		qbits := 64
+		if strings.HasSuffix(e.Fn, "32") {
+			qbits = 32
+			e.Fn = e.Fn[:3]
+		}
 		id, ok := e.Args[0].(Ident)
 		if !ok {
 			env.fail("first argument of %s must be a variable name", e.Fn)
@@ -575,19 +608,37 @@ func (env *Env) evalCall(e CallE) *SV {
 		lo, hi := arg(1), arg(2)
 		lc, lok := lo.constInt()
 		hc, hok := hi.constInt()
+		bound := func(v *SV) string {
+			if v.Untyped != nil {
+				return bvLitBig(qbits, v.Untyped)
+			}
+			return resize(v.term(), v.sort().Bits(), qbits, v.signed())
+		}
+		qs := bvSort(qbits)
+		mkv := func(t string) *SV { return ghostBV(qbits, true, t) }
 		if lok && hok && hc-lc <= 64 {
 			var parts []string
 			for k := lc; k < hc; k++ {
-				parts = append(parts, env.with(id.Name, ghostBV(64, true, bvLit(64, k))).evalBool(e.Args[3]))
+				parts = append(parts, env.with(id.Name, mkv(bvLit(qbits, k))).evalBool(e.Args[3]))
 			}
 			if e.Fn == "all" {
 				return ghostBool(and(parts...))
 			}
 			return ghostBool(or(parts...))
 		}
-		if env.inst != "" && ((e.Fn == "all" && env.pol < 0) || (e.Fn == "any" && env.pol > 0)) {
-			body := env.with(id.Name, ghostBV(64, true, env.inst)).evalBool(e.Args[3])
-			rng := and(app("bvsle", env.toBV64(lo), env.inst), app("bvslt", env.inst, env.toBV64(hi)))
+		instTerm := env.inst
+		if env.instMap != nil {
+			instTerm = env.instMap[id.Name]
+		}
+		if instTerm != "" {
+			// the instance term must have the quantifier's width
+			if w := vc.termBits(instTerm); w != 0 && w != qbits {
+				instTerm = ""
+			}
+		}
+		if instTerm != "" && ((e.Fn == "all" && env.pol < 0) || (e.Fn == "any" && env.pol > 0)) {
+			body := env.with(id.Name, mkv(instTerm)).evalBool(e.Args[3])
+			rng := and(app("bvsle", bound(lo), instTerm), app("bvslt", instTerm, bound(hi)))
 			if e.Fn == "all" {
 				return ghostBool(implies(rng, body))
 			}
@@ -598,9 +649,9 @@ func (env *Env) evalCall(e CallE) *SV {
 		}
 		if (e.Fn == "all" && env.pol > 0) || (e.Fn == "any" && env.pol < 0) {
 			// goal position: replace the bound variable by a fresh constant
-			sk := vc.freshS(SBV64, "sk_"+id.Name)
-			body := env.with(id.Name, ghostBV(64, true, sk)).evalBool(e.Args[3])
-			rng := and(app("bvsle", env.toBV64(lo), sk), app("bvslt", sk, env.toBV64(hi)))
+			sk := vc.freshS(qs, "sk_"+id.Name)
+			body := env.with(id.Name, mkv(sk)).evalBool(e.Args[3])
+			rng := and(app("bvsle", bound(lo), sk), app("bvslt", sk, bound(hi)))
 			if e.Fn == "all" {
 				return ghostBool(implies(rng, body))
 			}
@@ -609,12 +660,12 @@ func (env *Env) evalCall(e CallE) *SV {
 		q := vc.freshName("q_" + id.Name)
 		vc.bound = append(vc.bound, q)
 		defer func() { vc.bound = vc.bound[:len(vc.bound)-1] }()
-		body := env.with(id.Name, ghostBV(64, true, q)).withPol(0).evalBool(e.Args[3])
-		rng := and(app("bvsle", env.toBV64(lo), q), app("bvslt", q, env.toBV64(hi)))
+		body := env.with(id.Name, mkv(q)).withPol(0).evalBool(e.Args[3])
+		rng := and(app("bvsle", bound(lo), q), app("bvslt", q, bound(hi)))
 		if e.Fn == "all" {
-			return ghostBool(fmt.Sprintf("(forall ((%s (_ BitVec 64))) %s)", q, implies(rng, body)))
+			return ghostBool(fmt.Sprintf("(forall ((%s %s)) %s)", q, qs, implies(rng, body)))
 		}
-		return ghostBool(fmt.Sprintf("(exists ((%s (_ BitVec 64))) %s)", q, and(rng, body)))
+		return ghostBool(fmt.Sprintf("(exists ((%s %s)) %s)", q, qs, and(rng, body)))
 	case "fresh":
 		// the object was allocated after the old state
 		need(1)
@@ -796,12 +847,12 @@ func sortFromSMT(s string) (Sort, bool) {
 func hasQuant(e Expr) bool {
 	switch x := e.(type) {
 	case CallE:
-		if x.Fn == "all" || x.Fn == "any" {
+		if x.Fn == "all" || x.Fn == "any" || x.Fn == "all32" || x.Fn == "any32" {
 			if len(x.Args) == 4 {
-				_, lok := x.Args[1].(Num)
-				_, hok := x.Args[2].(Num)
-				if lok && hok {
-					return false
+				lo, lok := x.Args[1].(Num)
+				hi, hok := x.Args[2].(Num)
+				if lok && hok && new(big.Int).Sub(hi.V, lo.V).Cmp(big.NewInt(64)) <= 0 {
+					return hasQuant(x.Args[3]) // a small constant range is expanded, not quantified
 				}
 			}
 			return true
@@ -834,7 +885,13 @@ func (env *Env) assumeClause(guard string, e Expr) {
 		vc.assume(implies(guard, h.evalBool(e)))
 		return
 	}
-	vc.assume(implies(guard, h.evalBool(e)))
+	if vc.Contract != nil && vc.Contract.QFOnly {
+		d := *h
+		d.dropQ = true
+		vc.assume(implies(guard, d.evalBool(e)))
+	} else {
+		vc.assume(implies(guard, h.evalBool(e)))
+	}
 	snap := *h
 	snap.st = env.st.clone()
 	if env.old != nil {
@@ -845,11 +902,24 @@ func (env *Env) assumeClause(guard string, e Expr) {
 		names[k] = v
 	}
 	snap.names = names
-	vc.addHyp(func(inst string) string {
+	vc.hyps = append(vc.hyps, &hyp{contract: true, gen: func(inst string) string {
 		i := snap
-		i.inst = inst
+		// "a=t;b=u" instantiates the quantifiers that bind the variables a, b
+		if k := strings.Index(inst, "="); k > 0 && !strings.HasPrefix(inst, "(") {
+			i.instMap = map[string]string{}
+			for _, part := range strings.Split(inst, ";") {
+				if kk := strings.Index(part, "="); kk > 0 {
+					i.instMap[part[:kk]] = part[kk+1:]
+				}
+			}
+		} else {
+			i.inst = inst
+		}
+		if vc.Contract != nil && vc.Contract.QFOnly {
+			i.dropQ = true // quantifiers that are not instantiated contribute nothing
+		}
 		return implies(guard, i.evalBool(e))
-	})
+	}})
 }
 
 func (env *Env) quantThroughMacros(e Expr) bool {
@@ -883,6 +953,7 @@ func (env *Env) quantThroughMacros(e Expr) bool {
 
 
 type hyp struct {
+	contract bool // an assumed contract clause with named bound variables
 	gen  func(inst string) string
 	base string // for copy definitions: the destination offset; instances are also made at base + skolem
 }
@@ -966,7 +1037,78 @@ func (vc *VC) instantiateFor(texts ...string) []string {
 	}
 	sort.Strings(keys)
 	var out []string
+	// name-directed assignments for contract hypotheses: sk_<var>!n instantiates the
+	// quantifiers binding <var>; with several skolems of one name each is tried
+	byName := map[string][]string{}
+	for _, c := range keys {
+		if strings.HasPrefix(c, "sk_") {
+			name := c[3:]
+			if k := strings.Index(name, "!"); k > 0 {
+				name = name[:k]
+			}
+			byName[name] = append(byName[name], c)
+		}
+	}
+	for n, ts := range vc.hints {
+		byName[n] = append(byName[n], ts...)
+	}
+	// every bound-variable name may take any skolem / hint term of a matching width
+	// (a chunk index quantified as d is also needed at the goal's c, and so on)
+	pool := map[int][]string{}
+	seenT := map[string]bool{}
+	for _, ts := range byName {
+		for _, t := range ts {
+			if !seenT[t] {
+				seenT[t] = true
+				w := vc.termBits(t)
+				pool[w] = append(pool[w], t)
+			}
+		}
+	}
+	for w := range pool {
+		sort.Strings(pool[w])
+	}
+	var names []string
+	for n := range byName {
+		names = append(names, n)
+	}
+	sort.Strings(names)
+	assigns := []string{""}
+	for _, n := range names {
+		w := vc.termBits(byName[n][0])
+		cands := append([]string{}, byName[n]...)
+		for _, t := range pool[w] {
+			dup := false
+			for _, c := range cands {
+				if c == t {
+					dup = true
+				}
+			}
+			if !dup && len(cands) < 4 {
+				cands = append(cands, t)
+			}
+		}
+		var next []string
+		for _, a := range assigns {
+			for _, t := range cands {
+				if len(next) < 64 {
+					next = append(next, a+n+"="+t+";")
+				}
+			}
+		}
+		assigns = next
+	}
+	if traceOn {
+		fmt.Fprintf(os.Stderr, "instantiateFor: %d hyps, names=%v assigns=%v hints=%v\n", len(vc.hyps), names, assigns, vc.hints)
+	}
 	for _, h := range vc.hyps {
+		if h.contract && len(names) > 0 {
+			for _, a := range assigns {
+				if inst := h.gen(a); inst != "true" {
+					out = append(out, "(assert "+inst+")")
+				}
+			}
+		}
 		for _, c := range keys {
 			if len(out) > 300 {
 				break
@@ -992,7 +1134,7 @@ func (vc *VC) specCandidates(text string, out map[string]bool) {
 	var walk func(x *sexp)
 	walk = func(x *sexp) {
 		if x.list == nil {
-			if strings.HasPrefix(x.atom, "sk_") && vc.sortOf[x.atom] == "(_ BitVec 64)" {
+			if strings.HasPrefix(x.atom, "sk_") && (vc.sortOf[x.atom] == "(_ BitVec 64)" || vc.sortOf[x.atom] == "(_ BitVec 32)") && !strings.HasPrefix(x.atom, "sk_r!") {
 				out[x.atom] = true
 			}
 			return
@@ -1183,4 +1325,25 @@ func (env *Env) tryMapIndex(e IndexE) (*SV, bool) {
 	_, v := mapGet(env.st, sh, mv.C[0], kt)
 	mt := mv.T.Underlying().(*types.Map)
 	return &SV{T: mt.Elem(), C: []string{v}}, true
+}
+
+// termBits: bit width of a literal or a declared/defined name (0 if unknown).
+func (vc *VC) termBits(t string) int {
+	if _, w, ok := litVal(t); ok {
+		return w
+	}
+	if strings.HasPrefix(t, "(") {
+		return 64 // compound instantiation candidates are 64-bit index terms
+	}
+	switch vc.sortOf[t] {
+	case "(_ BitVec 64)":
+		return 64
+	case "(_ BitVec 32)":
+		return 32
+	case "(_ BitVec 16)":
+		return 16
+	case "(_ BitVec 8)":
+		return 8
+	}
+	return 0
 }
